@@ -199,6 +199,59 @@ fn s_tenants(rng: &mut Rng) {
    }
 }
 
+/// C20: several instances share ONE small pool: each is `install`ed from its own OS thread, so a
+/// worker that waits inside one instance's parallel merge may pick up another instance's whole
+/// run() (work stealing). Each must equal its serial twin; nothing may deadlock. Data-race
+/// detector off for the same reason as in `tenants`.
+fn s_shared_pool(rng: &mut Rng) {
+   let pl = std::sync::Arc::new(pool(2));
+   // chains of different lengths on top of a diamond: several iterations (and index merges) per run
+   let graphs: Vec<Vec<(u32, u32)>> = (0..3u32)
+      .map(|i| {
+         let mut g = diamond(rng);
+         let base = 20 + 10 * i;
+         for k in 0..(2 + i) {
+            g.push((base + k, base + k + 1));
+         }
+         g.push((0, base));
+         g
+      })
+      .collect();
+   let handles: Vec<_> = graphs
+      .iter()
+      .cloned()
+      .map(|edges| {
+         let pl = pl.clone();
+         std::thread::spawn(move || {
+            let mut last = vec![];
+            for _ in 0..2 {
+               last = pl.install(|| {
+                  let p = tc::par::P::default();
+                  for e in edges.iter() {
+                     p.edge.push(*e);
+                  }
+                  let mut p = p;
+                  p.run();
+                  p.path.iter().cloned().collect::<Vec<(u32, u32)>>()
+               });
+            }
+            last
+         })
+      })
+      .collect();
+   for (h, edges) in handles.into_iter().zip(graphs) {
+      let rows = h.join().unwrap_or_else(|_| fail("shared-pool: an instance panicked".to_string()));
+      let mut s = tc::ser::P::default();
+      s.edge = edges;
+      s.run();
+      let want: BTreeSet<(u32, u32)> = s.path.iter().cloned().collect();
+      let got: BTreeSet<(u32, u32)> = rows.iter().cloned().collect();
+      if got != want || rows.len() != got.len() {
+         fail(format!("shared-pool: instance differs from its solo serial result: {:?} vs {:?}", got, want));
+      }
+   }
+}
+
 fn main() {
    let args: Vec<String> = std::env::args().collect();
    let scenario = args.get(1).map(|s| s.as_str()).unwrap_or("tc");
@@ -211,6 +264,7 @@ fn main() {
       "sp" => s_sp(&mut rng, 3),
       "index" => s_index(&mut rng, 3),
       "tenants" => s_tenants(&mut rng),
+      "shared-pool" => s_shared_pool(&mut rng),
       other => {
          eprintln!("unknown scenario {}", other);
          std::process::exit(2)
